@@ -90,7 +90,7 @@ class Builder:
         self.taint.append(t)
         return len(self.prog) - 1
 
-    def conv(self, src, cout=None, dw=False, keep_size=False, k_choices=None):
+    def conv(self, src, cout=None, dw=False, keep_size=False, k_choices=None, p_bn=None):
         rng, dim = self.rng, self.dim
         cin = self.ch[src]
         cout = cin if dw else (cout or rng.choice([2, 3, 4, 5, 6]))
@@ -109,7 +109,7 @@ class Builder:
             m = nn.Conv2d(cin, cout, K, stride=s, padding=K // 2, groups=cin if dw else 1, bias=bias)
         so = (self.sp[src] - 1) // s + 1
         n = self.add(('dw' if dw else 'conv', p, m), cout, so)
-        if rng.random() < self.o.get('p_bn', .5):
+        if rng.random() < (self.o.get('p_bn', .5) if p_bn is None else p_bn):
             BN = nn.BatchNorm1d if dim == 1 else nn.BatchNorm2d
             n = self.add(('bn', n, BN(cout)), cout, so)
         n = self.add(('relu', n), cout, so)
@@ -213,16 +213,24 @@ def gen_program(rng, dim, opts=None):
         # channel concat of two tensors of fixed origin and different widths (layers excluded from
         # the search by name, or a network input), feeding a searchable layer
         ca = rng.choice([2, 3])
-        a = b.conv(cur, cout=ca, keep_size=True)
-        c2 = b.conv(cur, cout=ca + rng.choice([1, 2]), keep_size=True)
+        # (a BatchNorm after an excluded layer stays a module of its own and becomes the first
+        # consumer of the layer's fixed width: mostly left out here, so that the searchable layer
+        # below is the first one to see both widths)
+        a = b.conv(cur, cout=ca, keep_size=True, p_bn=.15)
+        c2 = b.conv(cur, cout=ca + rng.choice([1, 2]), keep_size=True, p_bn=.15)
         for node in (a, c2):
             j = node
             while b.prog[j][0] not in ('conv',):
                 j -= 1
             b.prog[j][-1]._force_excl = True
-        lst = [a, c2] + ([cur] if rng.random() < .4 else [])
-        rng.shuffle(lst)
-        cur = b.add(('cat', lst), sum(b.ch[j] for j in lst), b.sp[cur])
+        if rng.random() < .5:
+            # nested: the same operand position at both levels holds a fixed-width tensor
+            inner = b.add(('cat', [c2, cur]), b.ch[c2] + b.ch[cur], b.sp[cur])
+            cur = b.add(('cat', [a, inner]), b.ch[a] + b.ch[inner], b.sp[cur])
+        else:
+            lst = [a, c2] + ([cur] if rng.random() < .4 else [])
+            rng.shuffle(lst)
+            cur = b.add(('cat', lst), sum(b.ch[j] for j in lst), b.sp[cur])
         cur = b.conv(cur)
     unsup = o.get('unsupported')
     if unsup == 'add_cat':
